@@ -44,6 +44,21 @@ def render_doc(S, rng, order, layout=True):
     return "\n".join(lines) + "\n", stmts
 
 
+def second_system(S, rng):
+    """the same system with other concentration triples on its kernel-notation complexes"""
+    import copy
+    S2 = copy.deepcopy(S)
+    for n, (sq, st, conc, notation) in list(S2.complexes.items()):
+        if notation == "strand":
+            continue
+        while True:
+            c2 = (rng.choice(["initial", "constant"]), rng.choice([0, 7, 2.5, 1e-7, 100]), rng.choice(gen_pil.CUNITS))
+            if conc is None or tuple(conc) != c2:
+                break
+        S2.complexes[n] = (sq, st, c2, notation)
+    return S2
+
+
 def system(rng, big=False):
     if big:
         return gen_pil.make_system(rng, n_dom=rng.randrange(3, 9), n_cplx=rng.randrange(3, 10), n_strands=rng.randrange(0, 5),
@@ -111,6 +126,8 @@ def run(ctx):
             if k < (40 if quick else 500):
                 oc = dict(systems[text])
                 oc["ignore_kinds"] = rng.sample(KINDS, 2)
+                S2 = second_system(S, rng)
+                oc["second"] = {"text": gen_pil.render(S2, order=order), "expected": gen_pil.expected(S2)}
                 ocases.append(oc)
         diffs += correspond(ctx, "consistent-systems", reqs)
         # 2. small scope: every short document over the pool
